@@ -436,6 +436,34 @@ def shareByText (files : List (Path × List Stmt)) (exts : List Path) : List (Pa
     let src := fun (n : Path) => exts.findSome? fun e => files.lookup (n ++ e)
     cache.findSome? fun p => if src p.1 = src name then some p.2 else none
 
+/-! ## the FILE behind a module name
+
+The VM's module cache (`vm.modules`) and the importer's code cache are keyed by the module
+NAME, but the property is about module FILES: whatever the spellings, a file's top-level code
+runs once and there is one module object for it.  `fileOf` is the file (key of `env.files`:
+its path below the root) that `importer.Import(name)` reads — the first `name ++ ext` that
+exists. -/
+
+def fileOf (env : Env) (name : Path) : List Path → Option Path
+  | [] => none
+  | e :: es => if (env.files.lookup (name ++ e)).isSome then some (name ++ e) else fileOf env name es
+
+/-- the file a statement of the given spelling reaches when evaluated on its own: the first
+    requested name that is a module (from-imports: `parent/item`, else `parent`) -/
+def reachedFile (env : Env) (sp : Spelling) : Option Path :=
+  if accepted sp then (requestedNames sp).findSome? (fun n => fileOf env n env.exts) else none
+
+/-- Spec by file: no file's top-level code ran more than once … -/
+def runsOncePerFile (env : Env) (st : St) : Bool :=
+  decide ((st.ticks.filterMap fun n => fileOf env n env.exts).Nodup)
+
+/-- … and there is at most one module object per file -/
+def oneObjectPerFile (env : Env) (st : St) : Bool :=
+  decide ((st.objs.filterMap fun o => fileOf env o.1 env.exts).Nodup)
+
+/-- the extension starts with '.' -/
+def dottedExt (e : Path) : Bool := e.head? == some 46
+
 /-- every opened file is `root/<name><ext>` for a well-formed name -/
 def underRoot (root : Path) (p : Path) : Bool :=
   root.isEmpty || Risor.C13.hasPrefix p (cleanStr root ++ [47]) || cleanStr root == [47]
